@@ -82,7 +82,9 @@ func resolveEngine(p *Prog, r *Report, rule string) *engine {
 	e.UpdateRoot = p.Func(fsPkg, "walkContext.UpdateScanRoot")
 	e.lazyStat = p.Func(fsPkg, "lazyFileAPI.Stat")
 	e.fileSize = p.Func(fsPkg, "fileSize")
-	for n, f := range map[string]*ssa.Function{"shouldSkipDir": e.shouldSkipDir, "walkIndividualPaths": e.walkIndividual, "RunFS": e.RunFS, "Run": e.Run, "runOnScanRoot": e.runOnScanRoot, "UpdateScanRoot": e.UpdateRoot, "lazyFileAPI.Stat": e.lazyStat, "fileSize": e.fileSize} {
+	// runOnScanRoot and fileSize are small single-caller helpers: when they are gone the rules look for
+	// their bodies written out in Run and in the walk callback (perRootFn / sizeSource)
+	for n, f := range map[string]*ssa.Function{"shouldSkipDir": e.shouldSkipDir, "walkIndividualPaths": e.walkIndividual, "RunFS": e.RunFS, "Run": e.Run, "UpdateScanRoot": e.UpdateRoot, "lazyFileAPI.Stat": e.lazyStat} {
 		if f == nil {
 			miss(n)
 		}
@@ -107,8 +109,82 @@ func resolveEngine(p *Prog, r *Report, rule string) *engine {
 
 func (e *engine) ok() bool {
 	return e.handleFile != nil && e.postHandleFile != nil && e.runExtractor != nil && e.shouldSkipDir != nil &&
-		e.walkIndividual != nil && e.RunFS != nil && e.Run != nil && e.runOnScanRoot != nil && e.UpdateRoot != nil &&
-		e.walkRec != nil && e.WalkDir != nil && e.dispatchCall != nil && e.extractCall != nil && e.lazyStat != nil && e.fileSize != nil
+		e.walkIndividual != nil && e.RunFS != nil && e.Run != nil && e.UpdateRoot != nil &&
+		e.walkRec != nil && e.WalkDir != nil && e.dispatchCall != nil && e.extractCall != nil && e.lazyStat != nil
+}
+
+// perRootFn: the function that moves the walk context to a scan root and walks it — runOnScanRoot,
+// or Run itself when that helper's body is written out in Run's loop.
+func (e *engine) perRootFn() *ssa.Function {
+	if e.runOnScanRoot != nil {
+		return e.runOnScanRoot
+	}
+	return e.Run
+}
+
+// isPerRootCall: in Run, the call that walks one scan root (runOnScanRoot, or RunFS when inlined).
+func (e *engine) isPerRootCall(c *ssa.CallCommon) bool {
+	if c == nil {
+		return false
+	}
+	if e.runOnScanRoot != nil {
+		return c.StaticCallee() == e.runOnScanRoot
+	}
+	return c.StaticCallee() == e.RunFS
+}
+
+// sizeSource: the call in the walk callback that yields the size compared with the limit, and the
+// predicate "v is that size": fileSize(wc.fileAPI)#0, or — with fileSize written out —
+// wc.fileAPI.Stat()#0.Size(). Also reports whether the source is the lazy Stat of the walk's file API.
+func (e *engine) sizeSource() (src *ssa.Call, isSize func(ssa.Value) bool, onFileAPI bool) {
+	hf := e.handleFile
+	if e.fileSize != nil {
+		forEachInstr(hf, func(_ *ssa.BasicBlock, _ int, in ssa.Instruction) {
+			if c, ok := in.(*ssa.Call); ok && c.Call.StaticCallee() == e.fileSize {
+				src = c
+			}
+		})
+		if src == nil {
+			return nil, nil, false
+		}
+		return src, func(v ssa.Value) bool {
+			ex, ok := v.(*ssa.Extract)
+			return ok && ex.Tuple == ssa.Value(src) && ex.Index == 0
+		}, len(src.Call.Args) == 1 && loadsField(stripIface(src.Call.Args[0]), "walkContext", "fileAPI")
+	}
+	var stat, size *ssa.Call
+	forEachInstr(hf, func(_ *ssa.BasicBlock, _ int, in ssa.Instruction) {
+		c, ok := in.(*ssa.Call)
+		if !ok {
+			return
+		}
+		// wc.fileAPI.Stat(): through the FileAPI interface or directly on the lazy implementation
+		if c.Call.IsInvoke() && c.Call.Method.Name() == "Stat" && loadsField(stripIface(c.Call.Value), "walkContext", "fileAPI") {
+			stat = c
+		}
+		if !c.Call.IsInvoke() && c.Call.StaticCallee() == e.lazyStat && len(c.Call.Args) == 1 && loadsField(c.Call.Args[0], "walkContext", "fileAPI") {
+			stat = c
+		}
+	})
+	if stat == nil {
+		return nil, nil, false
+	}
+	forEachInstr(hf, func(_ *ssa.BasicBlock, _ int, in ssa.Instruction) {
+		c, ok := in.(*ssa.Call)
+		if !ok || !c.Call.IsInvoke() || c.Call.Method.Name() != "Size" {
+			return
+		}
+		if derivesFrom(c.Call.Value, func(v ssa.Value) bool {
+			ex, ok := v.(*ssa.Extract)
+			return ok && ex.Tuple == ssa.Value(stat) && ex.Index == 0
+		}, deriveOpts{}) {
+			size = c
+		}
+	})
+	if size == nil {
+		return nil, nil, false
+	}
+	return stat, func(v ssa.Value) bool { return v == ssa.Value(size) }, true
 }
 
 // predicates over handleFile that several properties share
